@@ -2,6 +2,7 @@ package main
 
 import (
 	"go/token"
+	"go/types"
 	"strings"
 
 	"golang.org/x/tools/go/ssa"
@@ -18,7 +19,8 @@ func init() {
 				Run: ruleCondLockState},
 			{ID: "C16.lockset", Floor: 4, Clause: "c.ch is read with c.m held (R or W) and written only with c.m held for writing; Broadcast closes the old channel before installing the new one",
 				Run: func(c *Ctx, r *R) {
-					guardedAccesses(c, r, "ch", "xsync", "ContextCond", "ch", "m")
+					chF, muF := condFieldNames(c)
+					guardedAccesses(c, r, "ch", "xsync", "ContextCond", chF, muF)
 					ruleBroadcastOrder(c, r)
 				}},
 			{ID: "C16.capacity-siblings", Floor: 3, Clause: "every creation site of ContextCond.ch uses the same constant capacity >= 1; Signal is a non-blocking send",
@@ -55,6 +57,7 @@ func ruleCondSnapshot(c *Ctx, r *R) {
 		return
 	}
 	held := locksIn(fn, lockset{})
+	_, muF := condFieldNames(c)
 	n := 0
 	for _, op := range chanOpsOf(fn) {
 		for _, a := range op.arms {
@@ -62,20 +65,36 @@ func ruleCondSnapshot(c *Ctx, r *R) {
 				continue
 			}
 			n++
-			ld, ok := a.ch.(*ssa.UnOp)
 			isSnap := false
-			if ok && ld.Op == token.MUL {
-				if fa, ok := ld.X.(*ssa.FieldAddr); ok && fieldName(fa.X.Type(), fa.Field) == "ch" {
-					before := ld.Block().Dominates(unlock.Block()) && (ld.Block() != unlock.Block() || idxIn(ld) < idxIn(unlock))
-					_, locked := held[ld]["c.m"]
-					isSnap = before && locked
+			// the channel value is computed (load or helper call) before the unlock ...
+			src := resolveVal(a.ch)
+			if si, ok := src.(ssa.Instruction); ok {
+				before := si.Block().Dominates(unlock.Block()) && (si.Block() != unlock.Block() || idxIn(si) < idxIn(unlock))
+				// ... and it is the cond's channel field read with the mutex held (here, or inside the helper)
+				if loads, ok := isCondChanLoad(c, src); ok && before {
+					isSnap = true
+					for _, ld := range loads {
+						h := held
+						if ld.Parent() != fn {
+							h = locksIn(ld.Parent(), lockset{})
+						}
+						locked := false
+						for lk := range h[ld] {
+							if strings.HasSuffix(lk, "."+muF) {
+								locked = true
+							}
+						}
+						if !locked {
+							isSnap = false
+						}
+					}
 				}
 			}
-			r.ok(isSnap, "xsync.ContextCond.Wait|recv-from-snapshot#"+itoa(n), posOf(op.in), "the channel waited on must be the value of c.ch read under c.m BEFORE c.L.Unlock(): a Broadcast between the unlock and a later read would replace the channel and the wake-up would be missed")
+			r.ok(isSnap, "xsync.ContextCond.Wait|recv-from-snapshot#"+itoa(n), posOf(op.in), "the channel waited on must be the value of the cond's channel read under its mutex BEFORE c.L.Unlock(): a Broadcast between the unlock and a later read would replace the channel and the wake-up would be missed")
 		}
 	}
 	if n == 0 {
-		r.violated("xsync.ContextCond.Wait|recv-from-snapshot", fn.Pos(), "Wait does not wait on c.ch")
+		r.violated("xsync.ContextCond.Wait|recv-from-snapshot", fn.Pos(), "Wait does not wait on the cond's channel")
 	}
 	// the unlock is unconditional and precedes the select
 	sel := false
@@ -152,25 +171,50 @@ func ruleBroadcastOrder(c *Ctx, r *R) {
 		r.undecided("xsync.ContextCond.Broadcast|missing", token.NoPos, "anchor not found")
 		return
 	}
+	chF, muF := condFieldNames(c)
 	var cl, st ssa.Instruction
 	instrs(fn, func(b *ssa.BasicBlock, i int, in ssa.Instruction) {
 		switch x := in.(type) {
 		case *ssa.Call:
-			if bi, ok := x.Call.Value.(*ssa.Builtin); ok && bi.Name() == "close" && fieldOfChan(x.Call.Args[0]) == "ch" {
-				cl = x
+			if bi, ok := x.Call.Value.(*ssa.Builtin); ok && bi.Name() == "close" {
+				if _, ok := isCondChanLoad(c, x.Call.Args[0]); ok {
+					cl = x
+				}
 			}
 		case *ssa.Store:
-			if _, f, ok := storedField(x.Addr); ok && f == "ch" {
-				if _, isMk := x.Val.(*ssa.MakeChan); isMk {
-					st = x
+			if _, f, ok := storedField(x.Addr); ok && f == chF {
+				for _, v := range throughHelper(x.Val) {
+					if _, isMk := v.(*ssa.MakeChan); isMk {
+						st = x
+					}
 				}
 			}
 		}
 	})
 	held := locksIn(fn, lockset{})
-	good := cl != nil && st != nil && cl.Block() == st.Block() && idxIn(cl) < idxIn(st) && held[cl]["c.m"] == 'W' && held[st]["c.m"] == 'W' && cl.Block() == fn.Blocks[0]
-	r.ok(good, "xsync.ContextCond.Broadcast|close-then-replace", fn.Pos(), "Broadcast must close the current channel (waking every waiter that snapshotted it) and then install a fresh one, both while holding c.m for writing")
+	w := func(in ssa.Instruction) bool {
+		for lk, m := range held[in] {
+			if strings.HasSuffix(lk, "."+muF) && m == 'W' {
+				return true
+			}
+		}
+		return false
+	}
+	good := cl != nil && st != nil && cl.Block() == st.Block() && idxIn(cl) < idxIn(st) && w(cl) && w(st) && cl.Block() == fn.Blocks[0]
+	// the channel that is closed must have been read under the lock too
+	if good {
+		if loads, ok := isCondChanLoad(c, cl.(*ssa.Call).Call.Args[0]); ok {
+			for _, ld := range loads {
+				if ld.Parent() == fn && !w(ld) {
+					good = false
+				}
+			}
+		}
+	}
+	r.ok(good, "xsync.ContextCond.Broadcast|close-then-replace", fn.Pos(), "Broadcast must close the current channel (waking every waiter that snapshotted it) and then install a fresh one, both while holding the cond's mutex for writing")
 }
+
+var siteOf = map[*ssa.MakeChan]*ssa.Store{}
 
 func condChanSites(c *Ctx) []*ssa.MakeChan {
 	var out []*ssa.MakeChan
@@ -183,12 +227,16 @@ func condChanSites(c *Ctx) []*ssa.MakeChan {
 			if !ok {
 				return
 			}
+			chF, _ := condFieldNames(c)
 			fa, ok := st.Addr.(*ssa.FieldAddr)
-			if !ok || fieldName(fa.X.Type(), fa.Field) != "ch" || !isNamedType(fa.X.Type(), "xsync", "ContextCond") {
+			if !ok || fieldName(fa.X.Type(), fa.Field) != chF || !isNamedType(fa.X.Type(), "xsync", "ContextCond") {
 				return
 			}
-			if mc, ok := st.Val.(*ssa.MakeChan); ok {
-				out = append(out, mc)
+			for _, v := range throughHelper(st.Val) {
+				if mc, ok := v.(*ssa.MakeChan); ok {
+					out = append(out, mc)
+					siteOf[mc] = st
+				}
 			}
 		})
 	}
@@ -199,12 +247,16 @@ func ruleCondCapacity(c *Ctx, r *R) {
 	sites := condChanSites(c)
 	caps := map[int64]bool{}
 	for i, mc := range sites {
-		k, ok := mc.Size.(*ssa.Const)
-		good := ok && k.Value != nil && k.Int64() >= 1
+		kv, ok := evalConst(mc.Size, 0)
+		good := ok && kv >= 1
 		if good {
-			caps[k.Int64()] = true
+			caps[kv] = true
 		}
-		r.ok(good, "xsync.ContextCond|ch-capacity#"+itoa(i+1), mc.Pos(), "ContextCond.ch must be created with a constant capacity >= 1: with an unbuffered channel a Signal that arrives after a waiter released c.L but before it parked finds no receiver and is lost")
+		pos := mc.Pos()
+		if st := siteOf[mc]; st != nil {
+			pos = st.Pos()
+		}
+		r.ok(good, "xsync.ContextCond|ch-capacity#"+itoa(i+1), pos, "ContextCond.ch must be created with a constant capacity >= 1: with an unbuffered channel a Signal that arrives after a waiter released c.L but before it parked finds no receiver and is lost")
 	}
 	r.ok(len(sites) >= 2 && len(caps) == 1, "xsync.ContextCond|ch-capacity-siblings", token.NoPos, "every creation site of ch (constructor and Broadcast) must use the same capacity; found "+itoa(len(sites))+" sites with "+itoa(len(caps))+" distinct valid capacities")
 	sig := c.fn("xsync.ContextCond.Signal")
@@ -214,12 +266,24 @@ func ruleCondCapacity(c *Ctx, r *R) {
 	}
 	nb := true
 	sends := 0
-	for _, op := range chanOpsOf(sig) {
-		for _, a := range op.arms {
-			if a.send && fieldOfChan(a.ch) == "ch" {
-				sends++
-				if op.blocking {
-					nb = false
+	seenFn := map[*ssa.Function]bool{}
+	for _, di := range deepInstrs(sig, 2) {
+		f := di.in.Parent()
+		if seenFn[f] {
+			continue
+		}
+		seenFn[f] = true
+		var chain []*ssa.Call = di.calls
+		for _, op := range chanOpsOf(f) {
+			for _, a := range op.arms {
+				if !a.send {
+					continue
+				}
+				if _, ok := isCondChanLoad(c, argOf(a.ch, chain)); ok {
+					sends++
+					if op.blocking {
+						nb = false
+					}
 				}
 			}
 		}
@@ -236,17 +300,28 @@ func ruleSignalCapacity(c *Ctx, r *R) {
 	// Is the wake-up token carried by a channel shared by all waiters, with bounded constant capacity, filled by a
 	// non-blocking (lossy) send?
 	lossy := false
-	for _, op := range chanOpsOf(sig) {
-		for _, a := range op.arms {
-			if a.send && fieldOfChan(a.ch) == "ch" && !op.blocking {
-				lossy = true
+	seenFn := map[*ssa.Function]bool{}
+	for _, di := range deepInstrs(sig, 2) {
+		f := di.in.Parent()
+		if seenFn[f] {
+			continue
+		}
+		seenFn[f] = true
+		for _, op := range chanOpsOf(f) {
+			for _, a := range op.arms {
+				if !a.send || op.blocking {
+					continue
+				}
+				if _, ok := isCondChanLoad(c, argOf(a.ch, di.calls)); ok {
+					lossy = true
+				}
 			}
 		}
 	}
 	var capv int64 = -1
 	for _, mc := range condChanSites(c) {
-		if k, ok := mc.Size.(*ssa.Const); ok && k.Value != nil {
-			capv = k.Int64()
+		if kv, ok := evalConst(mc.Size, 0); ok {
+			capv = kv
 		}
 	}
 	if lossy && capv >= 0 {
@@ -254,4 +329,36 @@ func ruleSignalCapacity(c *Ctx, r *R) {
 		return
 	}
 	r.discharged("xsync.ContextCond.Signal|wake-up-capacity", sig.Pos(), "Signal is not a lossy send on a shared bounded channel")
+}
+
+// condFieldNames: ContextCond's wake-up channel field (chan struct{}) and its guarding mutex field, whatever they are called.
+func condFieldNames(c *Ctx) (ch, mu string) {
+	chs := fieldsOfKind(c, "xsync", "ContextCond", func(t types.Type) bool { return chanElemIsEmptyStruct(t) })
+	mus := fieldsOfKind(c, "xsync", "ContextCond", func(t types.Type) bool {
+		return isNamedType(t, "sync", "RWMutex") || isNamedType(t, "sync", "Mutex")
+	})
+	if len(chs) == 1 {
+		ch = chs[0]
+	}
+	if len(mus) == 1 {
+		mu = mus[0]
+	}
+	return
+}
+
+// isCondChanLoad: v (after peeling locals and tiny helpers) is a load of ContextCond's channel field.
+func isCondChanLoad(c *Ctx, v ssa.Value) (loads []*ssa.UnOp, ok bool) {
+	chF, _ := condFieldNames(c)
+	for _, x := range throughHelper(v) {
+		ld, isLd := x.(*ssa.UnOp)
+		if !isLd || ld.Op != token.MUL {
+			return nil, false
+		}
+		fa, isFA := ld.X.(*ssa.FieldAddr)
+		if !isFA || fieldName(fa.X.Type(), fa.Field) != chF || !isNamedType(fa.X.Type(), "xsync", "ContextCond") {
+			return nil, false
+		}
+		loads = append(loads, ld)
+	}
+	return loads, len(loads) > 0
 }
